@@ -18,6 +18,7 @@ import NdnVerif.C16.LemmasTime
 import NdnVerif.C16.Lemmas2
 import NdnVerif.Gen.C16LockFacts
 import NdnVerif.C16.Readv
+import NdnVerif.C16.Teardown
 namespace Ndn.C16
 
 variable {σ σ2 L Res Op : Type}
@@ -294,5 +295,42 @@ example : Disciplined tornBody := by
   | 0 => simp [tornBody] at hm
   | 1 => simp [tornBody] at hm
   | n + 2 => intro f hf l s; simp [tornBody] at hf; subst hf; rfl
+
+/-! ## `rib/register` racing the teardown of the face it registers (F-16d) -/
+
+/-- **A registration that races the teardown of its face leaves nothing behind.**  For any number of `rib/register`
+    commands for a face (naming it in FaceId or registering their own incoming face), the teardown of that face, and
+    EVERY interleaving of their table operations: once all of them have completed, RIB and FIB hold no route of the
+    face — the outcome of the sequential order "commands, then teardown" (or of "teardown, then commands", which are
+    all refused). -/
+theorem register_racing_teardown_leaves_no_route (n : Nat) (explicit : Nat → Bool) (sched : List Teardown.Step)
+    (hd : Teardown.Done (Teardown.run ⟨true, true⟩ explicit (Teardown.init n) sched)) :
+    (Teardown.run ⟨true, true⟩ explicit (Teardown.init n) sched).routes = [] :=
+  Teardown.done_no_routes _ (Teardown.inv_run explicit sched _ (Teardown.inv_init n)) hd
+
+/-- the premise is satisfiable in a non-trivial way: two commands interleaved with the teardown, one route inserted
+    after the face left the face table and removed by its own re-check, one removed by the teardown's clean-up -/
+example :
+    let sched := [Teardown.Step.c 0, .c 1, .c 1, .t, .c 0, .t, .c 0, .c 1]
+    Teardown.Done (Teardown.run ⟨true, true⟩ (fun i => i == 0) (Teardown.init 2) sched) ∧
+    (Teardown.run ⟨true, true⟩ (fun i => i == 0) (Teardown.init 2) [Teardown.Step.c 0, .c 1, .c 1, .t, .c 0]).routes = [0, 1] := by decide
+
+/-- **Both facts are needed.**  Without the re-check after the insertion (the tree before F-16d) a command handled
+    after the teardown — or one whose check passed just before it — leaves its route for good; and with the re-check
+    but a teardown that cleaned the RIB BEFORE deleting the face from the face table, a command that runs between
+    the two steps passes the re-check and its route stays. -/
+theorem register_teardown_needs_both_facts :
+    (∃ sched, Teardown.Done (Teardown.run ⟨false, true⟩ (fun _ => false) (Teardown.init 1) sched) ∧ (Teardown.run ⟨false, true⟩ (fun _ => false) (Teardown.init 1) sched).routes ≠ []) ∧
+    (∃ sched, Teardown.Done (Teardown.run ⟨false, true⟩ (fun _ => true) (Teardown.init 1) sched) ∧ (Teardown.run ⟨false, true⟩ (fun _ => true) (Teardown.init 1) sched).routes ≠ []) ∧
+    (∃ sched, Teardown.Done (Teardown.run ⟨true, false⟩ (fun _ => true) (Teardown.init 1) sched) ∧ (Teardown.run ⟨true, false⟩ (fun _ => true) (Teardown.init 1) sched).routes ≠ []) :=
+  ⟨⟨[.t, .t, .c 0, .c 0, .c 0], by decide⟩, ⟨[.c 0, .t, .t, .c 0, .c 0], by decide⟩, ⟨[.t, .c 0, .c 0, .c 0, .t], by decide⟩⟩
+
+/-- the working tree has both (facts regenerated by harness/cmd/lockfacts on every run): `FaceTable.Remove` deletes
+    the face before it cleans the RIB, and `register` re-checks the face after its insertion, cleans up and returns
+    when it is gone; that clean-up is the only second table call of any command handler
+    (`one_command_is_one_table_operation`) -/
+theorem register_teardown_model_matches_source :
+    Ndn.Gen.C16.faceRemoveDeletesBeforeCleanup = true ∧ Ndn.Gen.C16.registerRechecksFace = true ∧
+    Ndn.Gen.C16.mgmtGuardedCleanups = [("RIBModule", "register", 1)] := by decide
 
 end Ndn.C16
